@@ -76,3 +76,37 @@ func VHarnessC18LinesTwin() {
 		vAssert(false, "twin")
 	}
 }
+
+// VHarnessC18Long: a long line arriving in several writes (as from os/exec's 32 KiB copies) is still
+// delivered as one line. The bulk is concrete; the bytes at the chunk boundaries and at both ends are
+// symbolic (so a newline may or may not sit there).
+func VHarnessC18Long() {
+	n, chunk := vParam("n"), vParam("chunk")
+	data := make([]byte, n)
+	for i := range data {
+		if i == 0 || i == n-1 || i%chunk == 0 || i%chunk == chunk-1 {
+			data[i] = vNondetU8("b")
+		} else {
+			data[i] = 'a'
+		}
+	}
+	ev := &vLines{}
+	w := newLineWriter(nil, ev)
+	for off := 0; off < n; off += chunk {
+		end := off + chunk
+		if end > n {
+			end = n
+		}
+		k, err := w.Write(data[off:end])
+		vAssert(err == nil && k == end-off, "long-write-returns-len")
+	}
+	vAssert(w.Flush() == nil, "long-flush-ok")
+	want := vSplit(data)
+	vAssert(len(ev.lines) == len(want), "long-line-count")
+	if len(ev.lines) == len(want) {
+		for i := range want {
+			vAssert(ev.lines[i] == want[i], "long-line-content")
+		}
+	}
+	vReach("long")
+}
